@@ -167,6 +167,23 @@ fn emit_drop(r: Option<()>, out: &mut Out) {
     match r { Some(()) => out.line(&format!("O drop = {}", fmt_list(&take_drops()))), None => out.line("O drop = P") }
 }
 
+/// what construction with capacity 0 does, per flavour
+pub fn observe_cap0(out: &mut Out) {
+    let r = guarded(|| { let q = Queue::<El>::new(0); (q.capacity(), q.is_full(), q.is_empty()) });
+    out.line(&format!("Z queue heap Queue::new(0) then (capacity, is_full, is_empty) = {:?}", r));
+    let r = guarded(|| { let q = FixedSizeQueue::<El, 0>::new(); q.capacity() });
+    out.line(&format!("Z queue fixed FixedSizeQueue::<T,0>::new() = {}", match r { Some(x) => format!("{:?}", x), None => "PANIC".into() }));
+    let r = guarded(|| {
+        let mut mem = vec![0u128; 8];
+        let mut q = Box::new(unsafe { RelocatableQueue::<El>::new_uninit(0) });
+        let alloc = BumpAllocator::new(core::ptr::NonNull::new(mem.as_mut_ptr() as *mut u8).unwrap(), mem.len() * 16);
+        let r = unsafe { q.init(&alloc) }.map_err(|e| format!("{:?}", e));
+        std::mem::forget(q);
+        r
+    });
+    out.line(&format!("Z queue reloc RelocatableQueue::new_uninit(0).init(bump) = {:?}", r));
+}
+
 pub fn run(a: &Args, out: &mut Out) {
     let flavours = ["heap", "fixed", "reloc"];
     let kinds = ["el", "u64"];
